@@ -138,7 +138,7 @@ def sender(ip_last):
 def cycle(n, seed, binary, pattern=None):
     """one stop/start cycle; returns (impl_line, verdict, sample)"""
     rng = random.Random(seed * 100003 + n)
-    pattern = pattern or rng.choice(["idle", "steady", "burst", "burst", "steady"])
+    pattern = pattern or rng.choice(["idle", "steady", "burst", "burst", "steady", "lull", "lull"])
     sig = rng.choice([signal.SIGTERM, signal.SIGTERM, signal.SIGINT])
     wdir = os.path.join(C.WORK, "e2e-%d-%d-%d" % (os.getpid(), seed, n))
     shutil.rmtree(wdir, ignore_errors=True)
@@ -181,7 +181,7 @@ def cycle(n, seed, binary, pattern=None):
             seq += 1
             s.sendto(msg, ("127.0.0.1", vf.ports[0] if proto == "ipfix" else vf.ports[3]))
 
-        nt = {"idle": rng.randint(0, 2), "steady": rng.randint(3, 10), "burst": rng.randint(40, 150)}[pattern]
+        nt = {"idle": rng.randint(0, 2), "steady": rng.randint(3, 10), "burst": rng.randint(40, 150), "lull": rng.randint(1, 4)}[pattern]
         for _ in range(nt):
             announce(must)
             if pattern == "steady":
@@ -190,7 +190,7 @@ def cycle(n, seed, binary, pattern=None):
                     data(rng.choice(must))
         time.sleep(0.35)                      # these are "acknowledged before the signal"
         # traffic in flight around the signal: more templates (may or may not make it) and data
-        inflight = {"idle": 0, "steady": rng.randint(5, 30), "burst": rng.randint(100, 600)}[pattern]
+        inflight = {"idle": 0, "steady": rng.randint(5, 30), "burst": rng.randint(100, 600), "lull": 0}[pattern]
         for i in range(inflight):
             if rng.random() < 0.3:
                 announce(late, True)
@@ -198,7 +198,20 @@ def cycle(n, seed, binary, pattern=None):
                 must[:] = [m for m in must if not any(l[0] == m[0] and l[1] == m[1] and l[2] == m[2] for l in late)]
             elif must:
                 data(rng.choice(must))
-        time.sleep(rng.choice([0, 0, 0.001, 0.01, 0.1, 0.5, 0.99, 1.0]))
+        if pattern == "lull":
+            # one datagram just before the signal: the reader wakes up and arms a fresh 1 s deadline that is still
+            # pending through most of the grace period
+            time.sleep(0.3)
+            try:
+                if must:
+                    data(rng.choice(must))
+                else:
+                    announce(late, True)
+            except OSError:
+                pass
+            time.sleep(0.05)
+        else:
+            time.sleep(rng.choice([0, 0, 0.001, 0.01, 0.1, 0.5, 0.99, 1.0]))
         # traffic keeps arriving while the collector stops (new templates + data for 1.6 s: across the grace
         # period, the cache dump and the closing of the queues)
         import threading
@@ -216,8 +229,24 @@ def cycle(n, seed, binary, pattern=None):
                     pass
                 if pattern == "steady":
                     time.sleep(0.002)
+        def lull():
+            # the link goes quiet at the signal, then single datagrams arrive late in the grace period
+            # (the read armed before the signal is still pending: they must be taken and handed over cleanly)
+            t0 = time.time()
+            for off in sorted(rng.sample([0.52, 0.6, 0.68, 0.76, 0.84], rng.randint(1, 3))):
+                time.sleep(max(0, t0 + off - time.time()))
+                try:
+                    if must:
+                        data(rng.choice(must))
+                    else:
+                        announce(late, True)
+                except OSError:
+                    pass
         bg = None
-        if pattern != "idle":
+        if pattern == "lull":
+            bg = threading.Thread(target=lull)
+            bg.start()
+        elif pattern != "idle":
             bg = threading.Thread(target=background)
             bg.start()
         rc, lat = vf.stop(sig)
@@ -293,7 +322,8 @@ def shutdown_cycles(pid, tier, seed):
     import concurrent.futures as cf
     lat = []
     with cf.ThreadPoolExecutor(max_workers=6 if tier == "quick" else 12) as ex:
-        futs = [ex.submit(cycle, i, seed, binary) for i in range(n)]
+        forced = ["lull", "burst", "lull", "steady", "idle", "burst"]   # the quick tier covers every pattern
+        futs = [ex.submit(cycle, i, seed, binary, forced[i] if i < len(forced) else None) for i in range(n)]
         for i, f in enumerate(futs):
             line, verdict, sample = f.result()
             r.evaluations += 1
